@@ -181,15 +181,15 @@ PROPS["C08"] = dict(
 
 def _c13_runs(tier):
     rs = []
-    for mode in ("colswap", "rows", "bits", "combine", "perm_small", "perm_big"):
+    for mode in ("colswap", "rows", "views", "bits", "combine", "perm_small", "perm_big"):
         rs.append(Run(C(), "harness/p_c13.c", ["--mode=" + mode, "--setbits=24"], group=mode))
-    for mode in ("rows", "combine", "perm_big") + (("perm_small", "colswap") if tier == "thorough" else ()):
+    for mode in ("rows", "views", "combine", "perm_big") + (("perm_small", "colswap") if tier == "thorough" else ()):
         rs.append(Run(C(sse2=0, **MIN), "harness/p_c13.c", ["--mode=" + mode, "--setbits=24"], group=mode))
     return rs
 
 PROPS["C13"] = dict(
     level="exploration", runs=_c13_runs,
-    rule="mzd_col_swap for EVERY pair (a,b) in [0,n)^2, n in {1,2,63,64,65,130,200}; mzd_col_swap_in_rows for every row range of a 9-row matrix; mzd_row_swap/_mzd_row_swap for every row pair and start block; mzd_row_add_offset / mzd_row_clear_offset for EVERY column offset at 10 widths; mzd_read_bits/xor_bits/clear_bits for every (column, length 1..64) in 6 row widths; write_bit/read_bit at every position; mzd_combine family for every start block (equal remaining widths, in-place and three-operand forms); permutation application (left, left_trans, right, right_trans, even_capped with start rows/cols, trans_tri): ALL 873 LAPACK swap sequences of length <= 6 on dimension L and L+2, and for n in {64,65,127,128,130,200} x lengths {n,n-1,n/2,1}: identity, every single swap, pairs of swaps from a 12-position boundary set, cyclic, reversal, two fixed random sequences; each application is also undone by its transposed counterpart; builds with L1 = 32K and 4K (strip height); non-trivial = the operation moves something; distinct = distinct (operation, parameters, data)",
+    rule="(views) row swap / row add from a column / row clear from a column / row add / column swap (in a row range) applied to VIEWS of 13 widths (1..11 words) in 5 placements (row and word offsets 0..3, parent continuing inside the last word, view of a view) with parents full of ones / pseudo-random bits: exactly the addressed entries of the view change and no bit of the parent outside it; (owned) mzd_col_swap for EVERY pair (a,b) in [0,n)^2, n in {1,2,63,64,65,130,200}; mzd_col_swap_in_rows for every row range of a 9-row matrix; mzd_row_swap/_mzd_row_swap for every row pair and start block; mzd_row_add_offset / mzd_row_clear_offset for EVERY column offset at 10 widths; mzd_read_bits/xor_bits/clear_bits for every (column, length 1..64) in 6 row widths; write_bit/read_bit at every position; mzd_combine family for every start block (equal remaining widths, in-place and three-operand forms); permutation application (left, left_trans, right, right_trans, even_capped with start rows/cols, trans_tri): ALL 873 LAPACK swap sequences of length <= 6 on dimension L and L+2, and for n in {64,65,127,128,130,200} x lengths {n,n-1,n/2,1}: identity, every single swap, pairs of swaps from a 12-position boundary set, cyclic, reversal, two fixed random sequences; each application is also undone by its transposed counterpart; builds with L1 = 32K and 4K (strip height); non-trivial = the operation moves something; distinct = distinct (operation, parameters, data)",
     level_text="Bounded-exhaustive exploration of the row/column primitives and permutation application: complete enumeration of index pairs, offsets, bit ranges and of all short LAPACK swap sequences, against explicit reference swap loops written in the order the statement gives.",
     level_note="Bounded: dimensions <= 700; long permutations are structured families (all single swaps, boundary pairs) plus two fixed random ones. mzd_and_bits and even_capped(start_col>0) for the non-transposed form are not covered by the statement and not checked; swap targets are kept < P->length.",
     technique="bounded-exhaustive enumeration of index/offset/permutation alphabets on the real code against reference swap loops",
